@@ -210,7 +210,7 @@ def run(ctx):
     # an ordinary user error raised inside a (non-retried) step, including the attribute-carrying classes
     from aws_durable_execution_sdk_python.config import StepConfig
     from aws_durable_execution_sdk_python.retries import RetryDecision
-    for n, mk in enumerate([lambda: ValueError("in-step"),
+    for n, mk in enumerate([lambda: ValueError("in-step"), lambda: ValueError("cannot parse report-\udcff.csv"), lambda: ValueError("r\u00e9sum\u00e9 \u65e5\u672c"),
                             lambda: type("ApiError", (Exception,), {"data": b"\x00raw", "stack_trace": 7})("api"),
                             lambda: type("ApiError2", (Exception,), {"data": {"k": 1}, "error_type": 3, "message": ["m"]})("api2")]):
         def h(ev, c, mk=mk):
